@@ -431,11 +431,42 @@ impl<'a, 's> Gen<'a, 's> {
         go(w, &map, &self.v.descr_of, rotate)
     }
 
+    /// the same word shape behind a different opening literal and with the commands exchanged: accepts
+    /// no word the original accepts (stays inside C01's domain), but has the same table shape
+    fn twin_disjoint(&mut self, w: &E) -> Option<E> {
+        let E::Word(ps) = w else { return None };
+        let E::Lit { text: opener, .. } = &ps[0] else { return None };
+        let others: Vec<&str> = WORD_PREFIXES.iter().copied().filter(|o| !o.starts_with(opener.as_str()) && !opener.starts_with(o)).collect();
+        if others.is_empty() {
+            return None;
+        }
+        let new_opener = self.s.pick(&others).to_string();
+        let cmds: Vec<String> = self.v.cmds.iter().map(|c| c.text.clone()).collect();
+        let rot = if cmds.len() > 1 { 1 + self.s.below(cmds.len() - 1) } else { 0 };
+        fn go(e: &E, cmds: &[String], rot: usize) -> E {
+            match e {
+                E::Cmd(t) => match cmds.iter().position(|c| c == t) {
+                    Some(i) => E::Cmd(cmds[(i + rot) % cmds.len()].clone()),
+                    None => e.clone(),
+                },
+                _ => e.map_children(&mut |c| go(c, cmds, rot)),
+            }
+        }
+        let mut ps2: Vec<E> = ps[1..].iter().map(|p| go(p, &cmds, rot)).collect();
+        ps2.insert(0, self.lit(&new_opener));
+        Some(E::Word(ps2))
+    }
+
     /// one shell word made of >= 2 juxtaposed pieces
     pub fn word(&mut self, depth: usize) -> E {
-        if !self.p.unique_points && !self.prev_words.is_empty() && self.s.chance(1, 4) {
+        if !self.prev_words.is_empty() && self.s.chance(1, 4) {
             let w = self.s.pick(&self.prev_words).clone();
-            return self.twin(&w);
+            if !self.p.unique_points {
+                return self.twin(&w);
+            }
+            if let Some(t) = self.twin_disjoint(&w) {
+                return t;
+            }
         }
         let w = self.word_fresh(depth);
         if self.prev_words.len() < 4 {
